@@ -110,5 +110,34 @@ func init() {
 				w.Step(5, claim(u[0]), claim(u[5]))
 			}
 		}
+		// the parameters change while entries are running: an entry keeps the schedule it was created
+		// with through later claims and cancels (shorter, zero and longer new lengths)
+		for k, nn := range []int64{12, 0, 400} {
+			if w.Dead || !w.GovExec("numblocks 60", &commitmenttypes.MsgUpdateVestingInfo{Authority: w.Gov, BaseDenom: "ueden", VestingDenom: "uelys", NumBlocks: 60, VestNowFactor: 3, NumMaxVestings: 6}) {
+				break
+			}
+			a, b := u[3], u[4]
+			w.Step(5, vest(a, 100_000+int64(k)), vest(b, 7_777))
+			w.Step(5)
+			w.Step(5, claim(a))
+			if !w.GovExec("numblocks changed under running entries", &commitmenttypes.MsgUpdateVestingInfo{Authority: w.Gov, BaseDenom: "ueden", VestingDenom: "uelys", NumBlocks: nn, VestNowFactor: 3, NumMaxVestings: 6}) {
+				break
+			}
+			c.Ev("num_blocks_changed_under_running_entries")
+			w.Step(5, claim(a), cancel(b, 1_000))
+			w.Step(5, cancel(a, 10_000), claim(b))
+			for i := 0; i < 4; i++ {
+				w.Step(5, claim(a), claim(b))
+			}
+			w.Step(5, cancel(a, 1), cancel(b, 1))
+			for i := 0; i < 62 && !w.Dead; i++ {
+				if i%9 == 0 {
+					w.Step(5, claim(a), claim(b))
+				} else {
+					w.Step(5)
+				}
+			}
+			w.Step(5, claim(a), claim(b))
+		}
 	})
 }
